@@ -5,7 +5,9 @@ package c09
 
 import (
 	"fmt"
+	"github.com/wi1dcard/fingerproxy"
 	"net"
+	"net/http"
 	"strings"
 	"testing"
 	"testing/synctest"
@@ -80,9 +82,27 @@ func TestCheck(t *testing.T) {
 	}
 }
 
+type failing struct {
+	name string
+	fail bool
+}
+
+func (f failing) GetHeaderName() string { return f.name }
+func (f failing) GetHeaderValue(*http.Request) (string, error) {
+	if f.fail {
+		return "", fmt.Errorf("no fingerprint for this connection")
+	}
+	return "", nil
+}
+
 func runGroup(t *testing.T, rep *ev.Report, preserve bool, pr peer, proto string, xff opt, hosts []string) {
 	res := bubble.Run(t, func() {
-		st := bubble.NewStack(bubble.StackOpts{PreserveHost: preserve})
+		so := bubble.StackOpts{PreserveHost: preserve}
+		if prefill {
+			// the second pass also has injectors that produce nothing: one fails, one returns the empty string
+			so.Injectors = append(fingerproxy.DefaultHeaderInjectors(), failing{"X-Failing-FP", true}, failing{"X-Empty-FP", false})
+		}
+		st := bubble.NewStack(so)
 		defer st.Shutdown()
 		alpn := []string{"http/1.1"}
 		if proto == "h2" {
@@ -135,7 +155,11 @@ func runGroup(t *testing.T, rep *ev.Report, preserve bool, pr peer, proto string
 						if proto == "h2" && n%2 == 0 {
 							rq.Scheme = "http" // legal on a TLS connection (e.g. from an intermediary); the connection is still TLS
 						}
-						if proto == "h2" && n%3 == 0 {
+						if proto == "h2" && n%5 == 1 {
+							// no :authority at all: the host is in the host field (a request translated from HTTP/1.1)
+							rq.NoAuthority = true
+						}
+						if proto == "h2" && n%3 == 0 && !rq.NoAuthority {
 							// a Host field next to a differing :authority: the request target is :authority (RFC 9113 section 8.3.1)
 							rq.Lines = append(append([][2]string(nil), lines...), [2]string{"Host", "internal-admin.example"})
 						}
